@@ -1,5 +1,5 @@
 import Lean.Data.Json
-import Efp
+import Efp.Models
 /-!
 Line-protocol driver: one JSON request per input line, one JSON answer per output line.
 Run with `lake env lean --run Driver.lean < requests.jsonl`.
@@ -210,6 +210,31 @@ def handle (j : Json) : P Json := do
     | "round" => do let n ← jInt (← fld j "n"); pure (exceptVal (.ok (a.round n.toNat)))
     | "avgocc" => pure (exceptVal (nbAvgHourlyOccurrences a b))
     | _ => throw s!"unknown op {op}"
+  | "validate" =>
+    let cls ← fs j "cls"
+    let param ← fs j "param"
+    let v ← fld j "val"
+    let t ← fs v "t"
+    let iv : Efp.Validate.InVal ← match t with
+      | "quantity" => do
+        let d ← (← jArr (← fld v "dim")).toList.mapM jInt
+        let neg := match fldOpt v "neg" with | some (.bool b) => b | _ => false
+        pure (Efp.Validate.InVal.quantity d neg)
+      | "hourly" => pure .hourly
+      | "empty" => pure .empty
+      | "sobj" => pure (.sobj (match fldOpt v "allowed" with | some (.bool b) => b | _ => true))
+      | "float" => pure .pyfloat
+      | "str" => pure .pystr
+      | "modeling" => do pure (.modeling (← fs v "cls"))
+      | "list" => do pure (.list (← fsl v "clss"))
+      | _ => throw s!"unknown value kind {t}"
+    match Efp.Validate.findRow cls param with
+    | none => pure (Json.mkObj [("outcome", "no-row")])
+    | some r =>
+      match Efp.Validate.update r iv with
+      | .refusedBeforeApply e => pure (Json.mkObj [("outcome", "refused-before-apply"), ("err", e.tag)])
+      | .refusedAfterApply e => pure (Json.mkObj [("outcome", "refused-after-apply"), ("err", e.tag)])
+      | .accepted => pure (Json.mkObj [("outcome", "accepted")])
   | "tz" =>
     let z ← jZone (← fld j "zone")
     let s ← jSeries (← fld j "s")
